@@ -33,7 +33,10 @@ from hpstatic.loader import AnalysisError
 from hpstatic.terms import (sym, intern, show, subterms, calls_in, NONE, num, kw,
                             TRUE, FALSE)
 from . import c07, c15
-from .common import init_of, init_params, final_self
+from .common import init_of, init_params, final_self, path_has
+from hpstatic.logic import cmp_is
+
+MUTATION_TARGETS = {'holopy/inference/nmpfit.py': ['fit', 'initialize_fit', 'calc_residuals', 'cleanup_from_fit', 'minimize', 'unscale_pars_from_minimizer', 'get_errors_from_minimizer'], 'holopy/inference/scipyfit.py': ['fit', 'minimize', 'unscale_pars_from_minimizer'], 'holopy/inference/result.py': ['_serialize_as_dataset', '_unserialize', 'forward'], 'holopy/inference/interface.py': ['fit', 'validate_strategy']}
 
 LEVEL = 'other'
 META = dict(
@@ -110,7 +113,7 @@ def bounds(check, prog):
                       x[3] == num(idx) and x[4] == TRUE]
                 # guarded by hasattr(par, bound) and bound finite
                 guard = [x for x in subterms(d) if x[0] == 'ite' and
-                         any(y == ('cmp', cmpop, bound, inf) for y in subterms(x[1]))]
+                         any(cmp_is(y, cmpop, bound, inf) for y in subterms(x[1]))]
                 good = bool(lim) and bool(en) and bool(guard)
                 check.require(good, 'L1-bounds-reach-optimiser',
                               'NmpfitStrategy %s bound' % side,
@@ -570,9 +573,9 @@ def entry(check, prog):
     q = INF + 'interface.validate_strategy'
     it = Interp(prog, max_depth=1)
     res = it.analyze(q)
-    ok = any('ValueError' in show(o.value) and any(
-        t[0] == 'un' and t[1] == 'not' and t[2][0] == 'call' and t[2][1] == 'hasattr'
-        and pol for t, pol in o.cond) for o in res.raises)
+    ok = any('ValueError' in show(o.value) and path_has(
+        o.cond, lambda t: t[0] == 'call' and t[1] == 'hasattr', pol=False)
+        for o in res.raises)
     check.require(ok, 'L6-strategy-table', 'validate_strategy',
                   'a strategy without the requested operation is rejected',
                   prog.loc(q, prog.func(q)))
